@@ -115,6 +115,18 @@ func genElem(r *rand.Rand, depth int, syms int) string {
 	return genAtom(r)
 }
 
+// builtList yields a list built at run time that holds an object a literal
+// cannot show (a vector with a fill pointer or element type, a hash table).
+func builtList(r *rand.Rand) string {
+	n := 1 + r.IntN(4)
+	es := make([]string, n)
+	for i := range es {
+		es[i] = genAtom(r)
+	}
+	es[r.IntN(n)] = attrObj(r)
+	return "(list " + strings.Join(es, " ") + ")"
+}
+
 // vecLit yields a vector literal.
 func vecLit(r *rand.Rand, depth int) string {
 	return "#" + genListBody(r, depth, 2, false)
@@ -150,9 +162,12 @@ var valueKinds = []string{"number", "string", "symbol", "character", "list", "ve
 
 // valueFeats are the avoid-set features of the value mode.
 var valueFeats = map[string][]string{
-	"number": {"long-float-digits"},
-	"symbol": {"plain-symbol"},
-	"list":   {"quote-in-list"},
+	"number":     {"long-float-digits"},
+	"symbol":     {"plain-symbol"},
+	"list":       {"quote-in-list"},
+	"vector":     {"vector-grown", "not-adjustable", "nested-attr"},
+	"array":      {"not-adjustable", "nested-attr"},
+	"hash-table": {"nested-attr"},
 }
 
 // genValue yields the source of an expression whose value is an object of
@@ -179,6 +194,10 @@ func genValue(r *rand.Rand, kind, feat string) string {
 	case "list":
 		if feat == "quote-in-list" {
 			// the reader holds 'b inside quoted data as a quote object
+			if r.IntN(4) == 0 {
+				// the quote object itself is the value
+				return "''" + fw.Pick(r, symNames)
+			}
 			body := genListBody(r, 1, 0, false)
 			return "'(1 '" + fw.Pick(r, symNames) + " " + body[1:]
 		}
@@ -195,11 +214,34 @@ func genValue(r *rand.Rand, kind, feat string) string {
 		return "'" + body
 	case "vector":
 		switch {
+		case feat == "vector-grown":
+			return vecHistory(r, vecOpts{grown: true})
+		case feat == "not-adjustable":
+			return vecHistory(r, vecOpts{notAdj: true})
+		case feat == "nested-attr":
+			// an element that is itself an object with attributes a literal cannot show
+			n := 1 + r.IntN(3)
+			es := make([]string, n)
+			for i := range es {
+				es[i] = genAtom(r)
+			}
+			es[r.IntN(n)] = attrObj(r)
+			return "(vector " + strings.Join(es, " ") + ")"
 		case feat == "empty-vector" || (feat == "" && r.IntN(12) == 0):
-			return fw.Pick(r, []string{"#()", "(make-array 0)", "(vector)", "(make-array '(0))"})
-		case feat == "fill-pointer" || (feat == "" && r.IntN(5) == 0):
-			n := 2 + r.IntN(5)
-			return fmt.Sprintf("(make-array %d :fill-pointer %d :initial-contents '%s)", n, r.IntN(n), fixedList(r, n, 2))
+			return fw.Pick(r, []string{"#()", "(make-array 0)", "(vector)", "(make-array '(0))", "(make-array 0 :fill-pointer 0)", "(make-array 0 :fill-pointer t)"})
+		case feat == "fill-pointer" || (feat == "" && r.IntN(6) == 0):
+			// the fill pointer at every position: 0, inside, equal to the size
+			n := 1 + r.IntN(6)
+			fp := fmt.Sprint(r.IntN(n + 1))
+			switch r.IntN(4) {
+			case 0:
+				fp = fmt.Sprint(n)
+			case 1:
+				fp = "t"
+			}
+			return fmt.Sprintf("(make-array %d :fill-pointer %s :initial-contents '%s)", n, fp, fixedList(r, n, 2))
+		case feat == "" && r.IntN(3) == 0:
+			return vecHistory(r, vecOpts{})
 		case feat == "plain-attrs":
 			return vecLit(r, 2)
 		case r.IntN(3) == 0:
@@ -211,11 +253,8 @@ func genValue(r *rand.Rand, kind, feat string) string {
 			return src + ")"
 		case r.IntN(4) == 0:
 			n := 1 + r.IntN(5)
-			var es []string
-			for i := 0; i < n; i++ {
-				es = append(es, fmt.Sprint(r.IntN(100)))
-			}
-			return fmt.Sprintf("(make-array %d :element-type 'fixnum :initial-contents '(%s))", n, strings.Join(es, " "))
+			et := fw.Pick(r, elemTypes[1:])
+			return fmt.Sprintf("(make-array %d :element-type '%s :initial-contents '(%s))", n, et.name, strings.Join(et.elems(r, n), " "))
 		}
 		return vecLit(r, 2)
 	case "array":
@@ -227,13 +266,29 @@ func genValue(r *rand.Rand, kind, feat string) string {
 		if feat == "plain-attrs" {
 			return fmt.Sprintf("#%dA%s", rank, nestedContents(r, dims))
 		}
-		src := fmt.Sprintf("(make-array '%s :initial-contents '%s", intList(dims), nestedContents(r, dims))
-		if r.IntN(3) == 0 && feat != "plain-attrs" {
+		if feat == "nested-attr" {
+			return fmt.Sprintf("(make-array '(1 2) :initial-contents (list (list %s %s)))", genAtom(r), attrObj(r))
+		}
+		src := fmt.Sprintf("(make-array '%s", intList(dims))
+		if feat == "" && r.IntN(4) == 0 {
+			// an element type other than t
+			et := fw.Pick(r, elemTypes[1:])
+			src += fmt.Sprintf(" :element-type '%s :initial-element %s", et.name, quoted(et.elems(r, 1)[0]))
+		} else {
+			src += " :initial-contents '" + nestedContents(r, dims)
+		}
+		switch {
+		case feat == "not-adjustable":
+			src += " :adjustable nil"
+		case r.IntN(3) == 0:
 			src += " :adjustable t"
 		}
 		return src + ")"
 	case "hash-table":
 		n := r.IntN(7)
+		if feat == "nested-attr" {
+			n++
+		}
 		var b strings.Builder
 		b.WriteString("(let ((h (make-hash-table)))")
 		seen := map[string]bool{}
@@ -256,15 +311,21 @@ func genValue(r *rand.Rand, kind, feat string) string {
 			}
 			seen[key] = true
 			var val string
-			switch r.IntN(8) {
+			switch r.IntN(9) {
 			case 0:
 				val = vecLit(r, 1)
 			case 1:
 				val = "'" + fw.Pick(r, symNames)
 			case 2:
 				val = "'(" + fw.Pick(r, symNames) + " 2 \"s\")"
+			case 3:
+				// lists of every small length
+				val = "'" + fw.Pick(r, []string{"(a)", "(1)", "(\"s\")", "(a b)", "((a))", "(a . b)", "(nil)"})
 			default:
 				val = genAtom(r)
+			}
+			if feat == "nested-attr" && i == 0 {
+				val = attrObj(r)
 			}
 			fmt.Fprintf(&b, " (setf (gethash %s h) %s)", key, val)
 		}
